@@ -142,9 +142,13 @@ Proof. vm_compute. split; reflexivity. Qed.
    registered flag is a function of the affiliate id ([row_ok']; the id string
    ends with "(R)"), quantities are in range ([vtx] = valid_tx), the opening
    position is well formed ([init_ok2]), the rows are sorted by settlement
-   date (approot.rs sorts them), and the run does not hit the effective-cent
-   panic - the only panic possible under exact arithmetic on such rows
-   (C05_exact_panics_only_at_effective_cent). *)
+   date (approot.rs sorts them).  (Until the fix "treat a superficial loss
+   that rounds to zero effective cents as no superficial loss" the statements
+   carried the hypothesis that the run does not hit the effective-cent panic;
+   such runs are now accepted, no panic is possible under exact arithmetic on
+   such rows (C05_exact_never_panics), and the walk of Spec/Possible.v says
+   what they report: a denied amount that rounds to zero effective cents is
+   no superficial loss - nothing denied, no adjustment rows.) *)
 From Coq Require Import Sorted Lia.
 From ACB Require Import Spec.Possible Proofs.C05NoPanic Proofs.C04Iff.
 
@@ -165,7 +169,6 @@ Theorem C04_rejection_matches_offence : forall (regof : N -> bool), regof defaul
   forall init txs ds o,
   run exact init txs = (ds, o) ->
   init_ok2 init -> Forall (row_ok' regof) txs -> Forall vtx txs -> sd_sorted txs ->
-  o <> Some (SPanic (PanicConstraint Site.eff_cent)) ->
   match first_offence init txs with
   | None => o = None /\ effective ds = possible_rows init txs
   | Some (j, c) =>
@@ -186,7 +189,6 @@ Check C04_rejection_matches_offence : forall (regof : N -> bool), regof default_
   forall init txs ds o,
   run exact init txs = (ds, o) ->
   init_ok2 init -> Forall (row_ok' regof) txs -> Forall vtx txs -> sd_sorted txs ->
-  o <> Some (SPanic (PanicConstraint Site.eff_cent)) ->
   match first_offence init txs with
   | None => o = None /\ effective ds = possible_rows init txs
   | Some (j, c) =>
@@ -210,14 +212,12 @@ Theorem C04_rejected_iff_offending : forall (regof : N -> bool), regof default_i
   forall init txs ds o,
   run exact init txs = (ds, o) ->
   init_ok2 init -> Forall (row_ok' regof) txs -> Forall vtx txs -> sd_sorted txs ->
-  o <> Some (SPanic (PanicConstraint Site.eff_cent)) ->
   ((exists r, o = Some (SRej r) /\ listed r) <-> (exists j c, first_offence init txs = Some (j, c))).
 Proof. exact C04Iff.rejected_iff_offending. Qed.
 Check C04_rejected_iff_offending : forall (regof : N -> bool), regof default_id = false ->
   forall init txs ds o,
   run exact init txs = (ds, o) ->
   init_ok2 init -> Forall (row_ok' regof) txs -> Forall vtx txs -> sd_sorted txs ->
-  o <> Some (SPanic (PanicConstraint Site.eff_cent)) ->
   ((exists r, o = Some (SRej r) /\ listed r) <-> (exists j c, first_offence init txs = Some (j, c))).
 Print Assumptions C04_rejected_iff_offending.
 
@@ -226,14 +226,12 @@ Theorem C04_accepted_iff_possible : forall (regof : N -> bool), regof default_id
   forall init txs ds o,
   run exact init txs = (ds, o) ->
   init_ok2 init -> Forall (row_ok' regof) txs -> Forall vtx txs -> sd_sorted txs ->
-  o <> Some (SPanic (PanicConstraint Site.eff_cent)) ->
   (o = None <-> first_offence init txs = None).
 Proof. exact C04Iff.accepted_iff_possible. Qed.
 Check C04_accepted_iff_possible : forall (regof : N -> bool), regof default_id = false ->
   forall init txs ds o,
   run exact init txs = (ds, o) ->
   init_ok2 init -> Forall (row_ok' regof) txs -> Forall vtx txs -> sd_sorted txs ->
-  o <> Some (SPanic (PanicConstraint Site.eff_cent)) ->
   (o = None <-> first_offence init txs = None).
 Print Assumptions C04_accepted_iff_possible.
 
